@@ -247,6 +247,30 @@ func (rs *runState) judge(prop string, clientFinished bool, out *core.Outcome) {
 	if anyBufRace {
 		wtag += "-crcfault-bufrace"
 	}
+	// A CRCFAULT that answers a command of the application's second goroutine
+	// and reaches the host while a Write of the first one is waiting for its
+	// own acknowledgement: the host cannot tell whose frame it is about.
+	wkind := ""
+	for _, r := range snap.CrcFaults {
+		if r.Frame.Kind != 'C' || r.Reply == nil || r.Reply.DeliveredAt < 0 {
+			continue
+		}
+		side := false
+		for _, c := range calls {
+			if c.Step >= 1000 && c.Start <= r.Frame.At && (c.End < 0 || r.Frame.At <= c.End) && strings.HasPrefix(strings.ToUpper(strings.TrimSpace(r.Frame.Text)), "VERSION") {
+				side = true
+			}
+		}
+		if !side {
+			continue
+		}
+		for _, c := range calls {
+			if c.Op == "write" && c.Start <= r.Reply.DeliveredAt && (c.End < 0 || r.Reply.DeliveredAt <= c.End) {
+				wkind = "-after-crcfault-for-concurrent-command"
+				sim.Probe("crcfault-for-a-concurrent-command-during-a-write")
+			}
+		}
+	}
 
 	// ------------------------------------------------ data accepted by the TNC == bytes Write accepted
 	var taken []byte
@@ -267,13 +291,13 @@ func (rs *runState) judge(prop string, clientFinished bool, out *core.Outcome) {
 			}
 			switch {
 			case matchSegs(taken, data, all):
-				sim.Violate(prop, "write-stream", "tnc-got-less/"+wtag, "Write calls reported %d bytes accepted; the data frames the TNC took (%d bytes) are those bytes with the payload of at least one successful Write missing", wroteTotal, len(taken))
+				sim.Violate(prop, "write-stream", "tnc-got-less"+wkind+"/"+wtag, "Write calls reported %d bytes accepted; the data frames the TNC took (%d bytes) are those bytes with the payload of at least one successful Write missing", wroteTotal, len(taken))
 			default:
 				var want []byte
 				for _, sg := range segs {
 					want = append(want, sg.data...)
 				}
-				sim.Violate(prop, "write-stream", "tnc-got-different/"+wtag, "the data frames taken by the TNC (%d bytes) are not the bytes the Write calls accepted (%d bytes): first difference at offset %d", len(taken), wroteTotal, commonPrefix(taken, want))
+				sim.Violate(prop, "write-stream", "tnc-got-different"+wkind+"/"+wtag, "the data frames taken by the TNC (%d bytes) are not the bytes the Write calls accepted (%d bytes): first difference at offset %d", len(taken), wroteTotal, commonPrefix(taken, want))
 			}
 		}
 	}
